@@ -34,6 +34,10 @@ func genC01(e *emitter, tier string, seed int64) {
 		}
 		e.emit(out)
 	}
+	// every builtin with the argument shapes its checker accepts, over subjects of every kind:
+	// the matrices of C11 and C12, here under the no-panic specification
+	genC11(e, tier, seed)
+	genC12(e, tier, seed)
 }
 
 // C03: control flow and scoping; no builtins with engines, probes are the only effects besides variables
